@@ -11,8 +11,8 @@ DATA = [0, 1, 5, 7, 13, 255, 0x7FFFFFFF, 0x80000000, 0xFFFFFFFF, 0x100000001]
 class C19(Prop):
     id = "C19"
     title = "Cross-thread notifications are never lost or merged; shutdown terminates"
-    lean_modules = ["NV.C19.Props", "NV.C19.Witness"]
-    theorems = ["NV.C19.posts_delivered_exactly_once", "NV.C19.posts_multiset_preserved",
+    lean_modules = ["NV.C19.Props", "NV.C19.Global", "NV.C19.Witness"]
+    theorems = ["NV.C19.model_satisfies_spec", "NV.C19.posts_delivered_exactly_once", "NV.C19.posts_multiset_preserved",
                 "NV.C19.post_refused_only_when_full",
                 "NV.C19.queue_fifo_exactly_once", "NV.C19.queue_drop_policy", "NV.C19.queue_dequeue_oldest",
                 "NV.C19.timed_join_bounded", "NV.C19.timed_join_progress",
@@ -172,6 +172,8 @@ class C19(Prop):
                             ("seq-worker", ["wnew 1 hold", "wjoin 1 20", "wstate 1", "wrelease 1", "wstate 1", "wstop 1",
                                             "wstep 1", "wjoin 1 20", "wstate 1", "wdestroy 1"])):
             mk("tsan-" + name, ["#tsan"] + lines)
+        # repaired: heart_beat_flag raced between the timer thread and the backend (real callback vs real call_heart_beat)
+        mk("tsan-heart-beat-flag", ["#tsan-hb", "hbrace 60"])
         return B
 
     def gen_rt(self, rng, n):
@@ -294,9 +296,9 @@ class C19(Prop):
         return [self.gen_case(rng, "g%d" % i, tier) for i in range(n)]
 
     def extra_checks(self, ctx, tier, rng):
-        """the oracle accepts every trace of the model (tested here on fresh schedules; the proved theorems are the
-        per-mechanism statements in NV/C19/Props.lean)"""
-        cases = self.generate(rng, 150 if tier == "quick" else 1500, "model-only")
+        """the oracle accepts every trace of the model: proved (NV.C19.model_satisfies_spec); this re-tests the COMPILED
+        driver (parser, render/parseEv round trip) on fresh schedules"""
+        cases = self.generate(rng, 60 if tier == "quick" else 600, "model-only")
         model = {k: self.canon(v) for k, v in self.run_model(ctx, cases).items()}
         jd = self.run_judge(ctx, cases, model)
         bad = [(c, jd.get(c.id)) for c in cases if jd.get(c.id) != ["ok"]]
@@ -322,7 +324,7 @@ class C19(Prop):
                     n = int(t[2]) if len(t) > 2 and t[2].lstrip("-").isdigit() else -1
                     key = "wait-0" if n == 0 else "wait-1" if n == 1 else "wait-many"
                 elif t[0] == "wjoin":
-                    key = "wjoin-" + t[-1]
+                    key = "wjoin-" + (t[3] if len(t) > 3 else "?")
                 elif t[0] == "mt":
                     key = "mt-%s-%s" % (t[1], t[2] if len(t) > 2 else "?")
                 elif t[0] == "post":
